@@ -563,6 +563,7 @@ structure St where
   ix1 : SideIdx
   changeset : List Nat
   dirty : List Nat
+  moving : List Nat      -- `_kids_moving`: folders whose kids are being moved (innermost last)
   store : Backend
   punt0 : Int            -- `_punt_secs` (set to integers by the harness)
   punt1 : Int
@@ -570,7 +571,7 @@ structure St where
   silent : List Nat      -- entries changed without reaching `_dirtyset.add` since they were last dirtied
 
 def St.init (b : Backend) : St :=
-  { ents := [], ix0 := ⟨[], []⟩, ix1 := ⟨[], []⟩, changeset := [], dirty := [], store := b,
+  { ents := [], ix0 := ⟨[], []⟩, ix1 := ⟨[], []⟩, changeset := [], dirty := [], moving := [], store := b,
     punt0 := 1, punt1 := 1, silent := [] }
 
 /-- state threaded through exceptions -/
@@ -616,6 +617,7 @@ def rawSide (i : Nat) (sd : Sd) (f : Side → Side) : M Unit :=
 
 def modIx (sd : Sd) (f : SideIdx → SideIdx) : M Unit := modSt fun s => s.setIx sd (f (s.ix sd))
 def modChangeset (f : List Nat → List Nat) : M Unit := modSt fun s => { s with changeset := f s.changeset }
+def modMoving (f : List Nat → List Nat) : M Unit := modSt fun s => { s with moving := f s.moving }
 
 /-- `self._dirtyset.add(ent)` (802); the entry stops being "silently changed" -/
 def markDirty (i : Nat) : M Unit :=
@@ -667,10 +669,11 @@ def addInt (v : Val) (n : Int) : Option Val :=
 section hooks
 variable (rec : Call → M Unit)
 
-/-- state.py `_update_kids` (the `oid_is_path` branch is outside the model).
+/-- state.py `_update_kids_of` (the `oid_is_path` branch is outside the model).
     `get_kids` is a generator: the set of entries is taken once, each entry's path is read when
-    its turn comes. -/
-def updateKids (i : Nat) (sd : Sd) (priorPath path : Val) : M Unit := do
+    its turn comes; an entry in `_kids_moving` (the folder itself, or a folder whose own move is still
+    in progress further up the stack) is nobody's kid. -/
+def updateKidsOf (i : Nat) (sd : Sd) (priorPath path : Val) : M Unit := do
   let s ← getSide i sd
   if s.otype == .dir && !(priorPath.pyEq path) && !priorPath.isNone then
     match strOf priorPath, strOf path with
@@ -686,23 +689,35 @@ def updateKids (i : Nat) (sd : Sd) (priorPath path : Val) : M Unit := do
             | .no => pure ()
             | .rel relative =>
               if relative.isEmpty then pure ()
-              else if j == i then pure ()
               else do
-                let newPath := Path.join provCfg [np, relative]
-                rec (.side j sd (.plain .path (.val (.str (String.ofList newPath)))))
-                let sub ← getSide j sd
-                if sub.syncPath.truthy then
-                  match strOf sub.syncPath with
-                  | none => raise .unmodelled
-                  | some ssp =>
-                    match Path.isSubpath provCfg pp ssp false with
-                    | .no => pure ()
-                    | .rel syncRel =>
-                      if syncRel.isEmpty then pure ()
-                      else rec (.side j sd (.plain .syncPath (.val (.str (String.ofList (Path.join provCfg [np, syncRel]))))))
-                else pure ()
+                let cur ← getSt
+                if cur.moving.contains j then pure ()
+                else do
+                  let newPath := Path.join provCfg [np, relative]
+                  rec (.side j sd (.plain .path (.val (.str (String.ofList newPath)))))
+                  let sub ← getSide j sd
+                  if sub.syncPath.truthy then
+                    match strOf sub.syncPath with
+                    | none => raise .unmodelled
+                    | some ssp =>
+                      match Path.isSubpath provCfg pp ssp false with
+                      | .no => pure ()
+                      | .rel syncRel =>
+                        if syncRel.isEmpty then pure ()
+                        else rec (.side j sd (.plain .syncPath (.val (.str (String.ofList (Path.join provCfg [np, syncRel]))))))
+                  else pure ()
     | _, _ => raise .unmodelled
   else pure ()
+
+/-- `try: … finally: f` -/
+def finallyM {α} (m : M α) (f : St → St) : M α := fun s =>
+  match m s with
+  | (r, s') => (r, f s')
+
+/-- state.py `_update_kids`: `_kids_moving.append(ent)`; `_update_kids_of(…)`; finally `_kids_moving.pop()` -/
+def updateKids (i : Nat) (sd : Sd) (priorPath path : Val) : M Unit := do
+  modMoving (· ++ [i])
+  finallyM (updateKidsOf rec i sd priorPath path) fun s => { s with moving := s.moving.dropLast }
 
 /-- state.py:812-846 `_change_path` -/
 def changePath (i : Nat) (sd : Sd) (path : Val) : M Unit := do
